@@ -45,6 +45,7 @@ type Opts struct {
 	Monitor      ipfscluster.PeerMonitor   // nil: FakeMonitor
 	Host         host.Host                 // nil: fresh loopback host
 	Tweak        func(cfg *ipfscluster.Config)
+	NeverReady   bool // the consensus never becomes ready; NewRig then does not wait for Ready()
 }
 
 // Rig is one real Cluster with its fake surroundings.
@@ -86,7 +87,7 @@ func NewRig(o Opts) (*Rig, error) {
 		r.Shared = NewSharedState()
 		r.Shared.SetPeers([]peer.ID{r.ID})
 	}
-	r.Cons = &FakeConsensus{ID: r.ID, S: r.Shared}
+	r.Cons = &FakeConsensus{ID: r.ID, S: r.Shared, NeverReady: o.NeverReady}
 	r.dir, err = ioutil.TempDir("", "verif-rig-")
 	if err != nil {
 		return nil, err
@@ -149,12 +150,15 @@ func NewRig(o Opts) (*Rig, error) {
 		os.RemoveAll(r.dir)
 		return nil, err
 	}
+	r.Cluster = cl
+	if o.NeverReady {
+		return r, nil
+	}
 	select {
 	case <-cl.Ready():
 	case <-time.After(20 * time.Second):
 		return nil, fmt.Errorf("cluster not ready")
 	}
-	r.Cluster = cl
 	return r, nil
 }
 
